@@ -32,6 +32,9 @@ var (
 	ChainMixup = Chain{"mixup", 4, []int{30, 55, 40}, []int{56}, false}
 	ChainNoP   = Chain{"nop", 4, []int{30, 30}, nil, false}
 	ChainBig   = Chain{"big", 4, []int{60, 59}, []int{61}, false}
+	// ChainBig61: the largest primes the library accepts, in Q and in P: lazily reduced sums of k values in [0,cq)
+	// cross 2^64 here first (c*k*q > 2^64 from 5..8 parties on)
+	ChainBig61 = Chain{"big61", 4, []int{61, 60, 61}, []int{61, 61}, false}
 	ChainMid5  = Chain{"mid5", 5, []int{30, 30, 30}, []int{30, 30}, false}
 	// conjugate-invariant rings: even and odd log N, with and without unequal prime sizes / P
 	ChainMidCI   = Chain{"midci", 4, []int{30, 30, 30}, []int{30, 30}, true}
